@@ -103,6 +103,10 @@ Definition nzw (f : str * bool * bool * gv) : bool :=
   negb (if (i : bool) then match v with VNil => true | _ => false end else cmp_is_zero v).
 
 Definition seq_nil (v : gv) : bool := match v with VSlice _ n _ => n | _ => false end.
+(** a non-empty Go array is not the zero value of its type (cmp.Equal sees
+    an all-zero array as empty, an all-zero slice as non-empty) *)
+Definition arr_ok (v : gv) : Prop :=
+  match v with VArray _ (_ :: _) => cmp_is_zero v = false | _ => True end.
 Definition tag_ok (t : ety) (xs : list gv) : Prop := t = EDec -> Forall (fun x => is_dec x = true) xs.
 
 Fixpoint flookup (name : str) (fs : list (str * gv)) : option gv :=
@@ -140,7 +144,7 @@ Inductive R : gv -> gv -> Prop :=
     numv v1 = Some d1 -> numv v2 = Some d2 -> deqv d1 d2 -> is_dec v1 = is_dec v2 -> R v1 v2
 | R_seq v1 v2 t1 t2 xs1 xs2 :
     elems_of v1 = Some (t1, xs1) -> elems_of v2 = Some (t2, xs2) ->
-    seq_nil v1 = seq_nil v2 -> tag_ok t1 xs1 -> tag_ok t2 xs2 ->
+    seq_nil v1 = seq_nil v2 -> arr_ok v1 -> arr_ok v2 -> tag_ok t1 xs1 -> tag_ok t2 xs2 ->
     Forall2 R xs1 xs2 -> R v1 v2
 | R_obj v1 v2 n fs1 fs2 :
     objv v1 = Some (n, fs1) -> objv v2 = Some (n, fs2) ->
@@ -175,7 +179,7 @@ Definition Rv (a b : gv) : Prop := R (tgt a) (tgt b) /\ pok a /\ pok b.
 (** ** Elementary facts *)
 Lemma R_not_ptr a b : R a b -> is_ptr a = false /\ is_ptr b = false.
 Proof.
-  intros H. destruct H as [|b0|s|v1 v2 d1 d2 H1 H2 _ _|v1 v2 t1 t2 xs1 xs2 H1 H2 _ _ _ _|v1 v2 n fs1 fs2 H1 H2 _];
+  intros H. destruct H as [|b0|s|v1 v2 d1 d2 H1 H2 _ _|v1 v2 t1 t2 xs1 xs2 H1 H2 _ _ _ _ _ _|v1 v2 n fs1 fs2 H1 H2 _];
     try (split; reflexivity).
   - destruct v1; try discriminate H1; destruct v2; try discriminate H2; split; reflexivity.
   - destruct v1; try discriminate H1; destruct v2; try discriminate H2; split; reflexivity.
@@ -221,7 +225,7 @@ Inductive shape : gv -> gv -> Prop :=
 | Sh_num v1 v2 d1 d2 : numv v1 = Some d1 -> numv v2 = Some d2 -> deqv d1 d2 -> is_dec v1 = is_dec v2 -> shape v1 v2
 | Sh_seq v1 v2 t1 t2 xs1 xs2 :
     elems_of v1 = Some (t1, xs1) -> elems_of v2 = Some (t2, xs2) ->
-    seq_nil v1 = seq_nil v2 -> tag_ok t1 xs1 -> tag_ok t2 xs2 -> Forall2 R xs1 xs2 -> shape v1 v2
+    seq_nil v1 = seq_nil v2 -> arr_ok v1 -> arr_ok v2 -> tag_ok t1 xs1 -> tag_ok t2 xs2 -> Forall2 R xs1 xs2 -> shape v1 v2
 | Sh_obj v1 v2 n fs1 fs2 :
     objv v1 = Some (n, fs1) -> objv v2 = Some (n, fs2) -> Rflds fs1 fs2 -> shape v1 v2.
 
@@ -241,7 +245,7 @@ Lemma R_obj_inv x y :
   R x y -> is_obj x = true ->
   exists n fs1 fs2, objv x = Some (n, fs1) /\ objv y = Some (n, fs2) /\ Rflds fs1 fs2.
 Proof.
-  intros H Ho. destruct (R_shape x y H) as [| | |v1 v2 d1 d2 H1 H2 _ _|v1 v2 t1 t2 xs1 xs2 H1 H2 _ _ _ _|v1 v2 n fs1 fs2 H1 H2 Hf];
+  intros H Ho. destruct (R_shape x y H) as [| | |v1 v2 d1 d2 H1 H2 _ _|v1 v2 t1 t2 xs1 xs2 H1 H2 _ _ _ _ _ _|v1 v2 n fs1 fs2 H1 H2 Hf];
     try discriminate Ho.
   - destruct v1; try discriminate H1; discriminate Ho.
   - destruct v1; try discriminate H1; discriminate Ho.
@@ -312,7 +316,7 @@ Proof. destruct v; try discriminate; reflexivity. Qed.
 
 Lemma R_cnv a b : R a b -> R (cnv a) (cnv b).
 Proof.
-  intros H. pose proof H as H0. destruct H as [|b0|s|v1 v2 d1 d2 H1 H2 Hd He|v1 v2 t1 t2 xs1 xs2 H1 H2 _ _ _ _|v1 v2 n fs1 fs2 H1 H2 _].
+  intros H. pose proof H as H0. destruct H as [|b0|s|v1 v2 d1 d2 H1 H2 Hd He|v1 v2 t1 t2 xs1 xs2 H1 H2 _ _ _ _ _ _|v1 v2 n fs1 fs2 H1 H2 _].
   - exact H0.
   - exact H0.
   - cbn [cnv]. destruct (dec_of_string s) as [d|]; [|exact H0].
@@ -331,7 +335,7 @@ Qed.
 
 Lemma R_go_string a b : R a b -> is_go_string a = is_go_string b.
 Proof.
-  intros H. destruct H as [|b0|s|v1 v2 d1 d2 H1 H2 _ _|v1 v2 t1 t2 xs1 xs2 H1 H2 _ _ _ _|v1 v2 n fs1 fs2 H1 H2 _];
+  intros H. destruct H as [|b0|s|v1 v2 d1 d2 H1 H2 _ _|v1 v2 t1 t2 xs1 xs2 H1 H2 _ _ _ _ _ _|v1 v2 n fs1 fs2 H1 H2 _];
     try reflexivity.
   - destruct v1; try discriminate H1; destruct v2; try discriminate H2; reflexivity.
   - destruct v1; try discriminate H1; destruct v2; try discriminate H2; reflexivity.
@@ -361,7 +365,7 @@ Qed.
 
 Lemma R_is_obj a b : R a b -> is_obj a = is_obj b.
 Proof.
-  intros H. destruct H as [|b0|s|v1 v2 d1 d2 H1 H2 _ _|v1 v2 t1 t2 xs1 xs2 H1 H2 _ _ _ _|v1 v2 n fs1 fs2 H1 H2 _];
+  intros H. destruct H as [|b0|s|v1 v2 d1 d2 H1 H2 _ _|v1 v2 t1 t2 xs1 xs2 H1 H2 _ _ _ _ _ _|v1 v2 n fs1 fs2 H1 H2 _];
     try reflexivity.
   - destruct v1; try discriminate H1; destruct v2; try discriminate H2; reflexivity.
   - destruct v1; try discriminate H1; destruct v2; try discriminate H2; reflexivity.
@@ -438,7 +442,7 @@ Qed.
 
 Lemma R_is_nil a b : R a b -> is_nil a = is_nil b.
 Proof.
-  intros H. destruct H as [|b0|s|v1 v2 d1 d2 H1 H2 _ _|v1 v2 t1 t2 xs1 xs2 H1 H2 Hn _ _ _|v1 v2 n fs1 fs2 H1 H2 _];
+  intros H. destruct H as [|b0|s|v1 v2 d1 d2 H1 H2 _ _|v1 v2 t1 t2 xs1 xs2 H1 H2 Hn _ _ _ _ _|v1 v2 n fs1 fs2 H1 H2 _];
     try reflexivity.
   - rewrite (is_nil_numv _ _ H1), (is_nil_numv _ _ H2). reflexivity.
   - rewrite (is_nil_elems _ _ H1), (is_nil_elems _ _ H2). exact Hn.
@@ -555,7 +559,7 @@ Lemma gfn_rel name b1 b2 x y :
   R x y -> opt_rel R (get_field_by_name name (mkRv b1 x)) (get_field_by_name name (mkRv b2 y)).
 Proof.
   intros H. destruct (R_not_ptr x y H) as [Px Py]. pose proof (R_is_obj x y H) as Ho.
-  destruct (R_shape x y H) as [| | |v1 v2 d1 d2 H1 H2 _ _|v1 v2 t1 t2 xs1 xs2 H1 H2 _ _ _ _|v1 v2 n fs1 fs2 H1 H2 Hf].
+  destruct (R_shape x y H) as [| | |v1 v2 d1 d2 H1 H2 _ _|v1 v2 t1 t2 xs1 xs2 H1 H2 _ _ _ _ _ _|v1 v2 n fs1 fs2 H1 H2 Hf].
   - rewrite !gfn_nonobj by reflexivity. exact I.
   - rewrite !gfn_nonobj by reflexivity. exact I.
   - rewrite !gfn_nonobj by reflexivity. exact I.
@@ -598,7 +602,7 @@ Qed.
 
 Lemma do_ident_seq name v t xs : elems_of v = Some (t, xs) -> do_ident name v = project name t xs.
 Proof.
-  destruct v; try discriminate; cbn [elems_of]; intros H; injection H as <- <-; destruct xs; reflexivity.
+  destruct v as [| | | | | | |t0 n0 ys|t0 ys| | | |]; try discriminate; cbn [elems_of]; intros H; injection H as <- <-; destruct ys; reflexivity.
 Qed.
 
 Lemma do_ident_objlike name a n fs :
@@ -641,7 +645,7 @@ Proof.
   rewrite (head_test _ x0 _ _ Px), (head_test _ y0 _ _ Py), (R_is_obj x0 y0 H0).
   destruct (is_obj y0); [|exact I].
   destruct Hf as [|a c l1 l2 Hac Hl]; [exact I|].
-  cbn [orel]. apply R_Rv. eapply R_seq; try reflexivity.
+  cbn [orel]. apply R_Rv. eapply R_seq; try reflexivity; try exact I.
   - intros E; discriminate E.
   - intros E; discriminate E.
   - constructor; assumption.
@@ -650,7 +654,7 @@ Qed.
 Theorem do_ident_rel name a b : Rv a b -> orel Rv (do_ident name a) (do_ident name b).
 Proof.
   intros H. destruct (Rv_cases a b H) as [H0|[Oa [Ob [H0 [Pa [Pb _]]]]]].
-  - destruct (R_shape a b H0) as [| | |v1 v2 d1 d2 H1 H2 _ _|v1 v2 t1 t2 xs1 xs2 H1 H2 _ _ _ Hxs|v1 v2 n fs1 fs2 H1 H2 Hf].
+  - destruct (R_shape a b H0) as [| | |v1 v2 d1 d2 H1 H2 _ _|v1 v2 t1 t2 xs1 xs2 H1 H2 _ _ _ _ _ Hxs|v1 v2 n fs1 fs2 H1 H2 Hf].
     + rewrite !do_ident_scalar by reflexivity. exact I.
     + rewrite !do_ident_scalar by reflexivity. exact I.
     + rewrite !do_ident_scalar by reflexivity. exact I.
@@ -670,6 +674,181 @@ Proof.
     pose proof (flookup_rel name fs1 fs2 Hf) as Hl.
     destruct (flookup name fs1) as [x|], (flookup name fs2) as [y|]; cbn in Hl |- *; try contradiction; [|exact I].
     apply R_Rv. apply Rf_cus. exact Hl.
+Qed.
+
+
+(** ** The value a filter works on *)
+Lemma gass_unary a :
+  get_as_struct_or_slice a =
+  match tgt a with
+  | VStruct _ | VDec _ | VMap _ _ _ _ => Some (tgt a, true)
+  | VSlice _ _ xs | VArray _ xs => Some (VSlice EAny false xs, false)
+  | _ => None
+  end.
+Proof.
+  unfold get_as_struct_or_slice. rewrite deref_eta. cbn [rv_v].
+  destruct a as [| | | | | |o|t n xs|t xs|kt vt n kvs| | |]; try reflexivity.
+  - destruct o as [x|]; [|reflexivity]. cbn [tgt].
+    destruct x as [| | | | | | |t n xs|t xs| | | |]; try reflexivity; destruct xs; reflexivity.
+  - destruct xs; reflexivity.
+  - destruct xs; reflexivity.
+  - destruct kt, vt; reflexivity.
+Qed.
+
+Definition gass_rel (o1 o2 : option (gv * bool)) : Prop :=
+  match o1, o2 with
+  | None, None => True
+  | Some (v1, true), Some (v2, true) => R v1 v2
+  | Some (VSlice EAny false xs1, false), Some (VSlice EAny false xs2, false) => Forall2 R xs1 xs2
+  | _, _ => False
+  end.
+
+Theorem gass_respects a b : Rv a b -> gass_rel (get_as_struct_or_slice a) (get_as_struct_or_slice b).
+Proof.
+  intros [H _]. rewrite !gass_unary.
+  destruct (R_shape _ _ H) as [| | |v1 v2 d1 d2 H1 H2 Hd He|v1 v2 t1 t2 xs1 xs2 H1 H2 _ _ _ _ _ Hxs|v1 v2 n fs1 fs2 H1 H2 Hf].
+  - exact I.
+  - exact I.
+  - exact I.
+  - destruct v1 as [| | | i1 n1 f1 | | | | | | | | |]; try discriminate H1;
+    destruct v2 as [| | | i2 n2 f2 | | | | | | | | |]; try discriminate H2; try discriminate He;
+      try (destruct f1); try (destruct f2); try discriminate H1; try discriminate H2; try exact I.
+    cbn [gass_rel]. eapply R_num; eassumption.
+  - destruct v1; try discriminate H1; destruct v2; try discriminate H2;
+      cbn [elems_of] in H1, H2; injection H1 as _ <-; injection H2 as _ <-; exact Hxs.
+  - assert (HR : R v1 v2) by (eapply R_obj; eassumption).
+    destruct v1; try discriminate H1; destruct v2; try discriminate H2; exact HR.
+Qed.
+
+(** ** Function parameters *)
+Inductive Rp : rparam -> rparam -> Prop :=
+| Rp_num d1 d2 : deqv d1 d2 -> Rp (RNum d1) (RNum d2)
+| Rp_str s : Rp (RStr s) (RStr s)
+| Rp_bool b : Rp (RBool b) (RBool b).
+
+Lemma cnc_not_ptr v : is_ptr v = false ->
+  convert_number_check v =
+  match v with
+  | VStr _ s => match dec_of_string s with Some d => (true, d) | None => (false, dzero) end
+  | VInt _ _ z => (true, mkDec z 0)
+  | VFloat _ _ (FFin d) => (true, d)
+  | _ => (false, dzero)
+  end.
+Proof. intros H. apply convert_number_check_not_ptr. apply not_ptr_is. exact H. Qed.
+
+Lemma spread_elem_numv v d : numv v = Some d -> spread_elem v = Some (RNum d).
+Proof.
+  destruct v as [| | k nm z | i nm f | | | | | | | | |]; try discriminate; cbn [numv].
+  - intros H; injection H as <-. unfold spread_elem. rewrite cnc_not_ptr by reflexivity. reflexivity.
+  - destruct f; try discriminate. intros H; injection H as <-.
+    unfold spread_elem. rewrite cnc_not_ptr by reflexivity. reflexivity.
+  - intros H; injection H as <-. reflexivity.
+Qed.
+
+Lemma spread_elem_rel x y : R x y -> opt_rel Rp (spread_elem x) (spread_elem y).
+Proof.
+  intros H. destruct (R_not_ptr x y H) as [Px Py].
+  destruct (R_shape x y H) as [|b0|s|v1 v2 d1 d2 H1 H2 Hd He|v1 v2 t1 t2 xs1 xs2 H1 H2 _ _ _ _ _ _|v1 v2 n fs1 fs2 H1 H2 _].
+  - exact I.
+  - constructor.
+  - constructor.
+  - rewrite (spread_elem_numv v1 d1 H1), (spread_elem_numv v2 d2 H2). constructor. exact Hd.
+  - destruct v1; try discriminate H1; destruct v2; try discriminate H2;
+      unfold spread_elem; rewrite !cnc_not_ptr by reflexivity; exact I.
+  - destruct v1; try discriminate H1; destruct v2; try discriminate H2;
+      unfold spread_elem; rewrite !cnc_not_ptr by reflexivity; exact I.
+Qed.
+
+Lemma all_some_rel {A B} (P : A -> B -> Prop) l1 l2 :
+  Forall2 (opt_rel P) l1 l2 -> opt_rel (Forall2 P) (all_some l1) (all_some l2).
+Proof.
+  induction 1 as [|o1 o2 r1 r2 Ho Hr IH]; [constructor|].
+  destruct o1 as [a|], o2 as [b|]; cbn in Ho; try contradiction; cbn [all_some]; [|exact I].
+  destruct (all_some r1), (all_some r2); cbn in IH |- *; try contradiction; [|exact I].
+  constructor; assumption.
+Qed.
+
+Lemma Forall2_map {A B C D} (P : C -> D -> Prop) (Q : A -> B -> Prop) (f : A -> C) (g : B -> D) l1 l2 :
+  (forall a b, Q a b -> P (f a) (g b)) -> Forall2 Q l1 l2 -> Forall2 P (map f l1) (map g l2).
+Proof. intros Hf. induction 1; constructor; auto. Qed.
+
+Theorem spread_result_rel a b : Rv a b -> orel (Forall2 Rp) (spread_result a) (spread_result b).
+Proof.
+  intros H. destruct (Rv_cases a b H) as [H0|[Oa [Ob [H0 [Pa [Pb [Ca Cb]]]]]]].
+  - destruct (R_shape a b H0) as [|b0|s|v1 v2 d1 d2 H1 H2 Hd He|v1 v2 t1 t2 xs1 xs2 H1 H2 _ _ _ _ _ Hxs|v1 v2 n fs1 fs2 H1 H2 _].
+    + exact I.
+    + repeat constructor.
+    + repeat constructor.
+    + destruct v1 as [| | | i1 n1 f1 | | | | | | | | |]; try discriminate H1;
+      destruct v2 as [| | | i2 n2 f2 | | | | | | | | |]; try discriminate H2; try discriminate He; try exact I.
+      cbn in H1, H2. injection H1 as <-. injection H2 as <-. repeat constructor. exact Hd.
+    + pose proof (all_some_rel Rp (map spread_elem xs1) (map spread_elem xs2)
+                    (Forall2_map _ _ _ _ xs1 xs2 spread_elem_rel Hxs)) as Ha.
+      assert (S1 : spread_result v1 = match all_some (map spread_elem xs1) with Some ps => Ok ps | None => fail "unhandled param path type" end).
+      { destruct v1; try discriminate H1; cbn [elems_of] in H1; injection H1 as _ <-; reflexivity. }
+      assert (S2 : spread_result v2 = match all_some (map spread_elem xs2) with Some ps => Ok ps | None => fail "unhandled param path type" end).
+      { destruct v2; try discriminate H2; cbn [elems_of] in H2; injection H2 as _ <-; reflexivity. }
+      rewrite S1, S2.
+      destruct (all_some (map spread_elem xs1)), (all_some (map spread_elem xs2)); cbn in Ha |- *; try contradiction; [exact Ha | exact I].
+    + destruct v1; try discriminate H1; destruct v2; try discriminate H2; exact I.
+  - assert (S1 : exists t, spread_result a = fail t).
+    { destruct Ca as [E|E]; rewrite E; [|eexists; reflexivity].
+      destruct (tgt a); try discriminate Oa; eexists; reflexivity. }
+    assert (S2 : exists t, spread_result b = fail t).
+    { destruct Cb as [E|E]; rewrite E; [|eexists; reflexivity].
+      destruct (tgt b); try discriminate Ob; eexists; reflexivity. }
+    destruct S1 as [t1 ->], S2 as [t2 ->]. exact I.
+Qed.
+
+(** views of a related parameter list *)
+Lemma Rp_numbers ps1 ps2 : Forall2 Rp ps1 ps2 -> Forall2 deqv (numbers ps1) (numbers ps2).
+Proof.
+  induction 1 as [|p q r1 r2 Hp Hr IH]; [constructor|].
+  unfold numbers in *. cbn [filter_map]. destruct Hp; [constructor; assumption | exact IH | exact IH].
+Qed.
+
+Lemma Rp_strings ps1 ps2 : Forall2 Rp ps1 ps2 -> strings ps1 = strings ps2.
+Proof.
+  induction 1 as [|p q r1 r2 Hp Hr IH]; [reflexivity|].
+  unfold strings in *. cbn [filter_map]. destruct Hp; [exact IH | rewrite IH; reflexivity | exact IH].
+Qed.
+
+Lemma Rp_bools ps1 ps2 : Forall2 Rp ps1 ps2 -> bools ps1 = bools ps2.
+Proof.
+  induction 1 as [|p q r1 r2 Hp Hr IH]; [reflexivity|].
+  unfold bools in *. cbn [filter_map]. destruct Hp; [exact IH | exact IH | rewrite IH; reflexivity].
+Qed.
+
+Lemma Rp_length ps1 ps2 : Forall2 Rp ps1 ps2 -> length ps1 = length ps2.
+Proof. induction 1; cbn; congruence. Qed.
+
+Lemma Rp_len_is ps1 ps2 n : Forall2 Rp ps1 ps2 -> len_is ps1 n = len_is ps2 n.
+Proof. intros H. unfold len_is. rewrite (Rp_length _ _ H). reflexivity. Qed.
+
+Lemma Rp_app a1 a2 b1 b2 : Forall2 Rp a1 a2 -> Forall2 Rp b1 b2 -> Forall2 Rp (a1 ++ b1) (a2 ++ b2).
+Proof. intros Ha Hb. apply Forall2_app; assumption. Qed.
+
+Lemma Rp_first_number ps1 ps2 :
+  Forall2 Rp ps1 ps2 -> orel deqv (params_first_number ps1) (params_first_number ps2).
+Proof.
+  intros H. unfold params_first_number. rewrite (Rp_len_is _ _ 1 H), (Rp_strings _ _ H).
+  destruct (negb (len_is ps2 1)); [exact I|].
+  pose proof (Rp_numbers _ _ H) as Hn.
+  destruct Hn as [|d1 d2 r1 r2 Hd _]; [|exact Hd].
+  destruct (filter_map string_number (strings ps2)); [exact I | apply deqv_refl].
+Qed.
+
+Lemma Rp_first_string ps1 ps2 :
+  Forall2 Rp ps1 ps2 -> params_first_string ps1 = params_first_string ps2.
+Proof.
+  intros H. unfold params_first_string. rewrite (Rp_len_is _ _ 1 H), (Rp_strings _ _ H). reflexivity.
+Qed.
+
+Lemma Rp_first_any ps1 ps2 :
+  Forall2 Rp ps1 ps2 -> orel Rp (params_first_any ps1) (params_first_any ps2).
+Proof.
+  intros H. destruct H as [|p q r1 r2 Hp Hr]; [exact I|].
+  destruct Hr; [exact Hp | exact I].
 Qed.
 
 End Mode.
